@@ -499,6 +499,8 @@ def generate(rng, tier, index):
             # not UTF-8): an invalid file like any other
             plan["nonutf8"] = [rng.choice(files), rng.choice(
                 ["start", "end", "middle"])]
+    # environment: the process runs with warnings turned into errors
+    plan["warnings_error"] = rng.random() < 0.06
     return plan
 
 
@@ -581,6 +583,8 @@ def _execute(plan, out, scratch):
     pk[pkg_file_key("zcsim_p0")] = COMPONENT
     with SimWorld(store=pk, packages=PACKAGES, realfs=plan["realfs"],
                   scratch=scratch) as w:
+        if plan.get("warnings_error"):
+            w.warnings_as_errors()
         w.begin_op("load-schema")
         so = ops.schema_outcome(
             lambda: ops.load_schema_text(plan["schema_xml"], SCHEMA_URL))
